@@ -13,6 +13,7 @@ Templates == <<
   "local s = \"s\"", "local s = 's\\z  t'", "local s = 'a\\\nb'", "local s = [[s]]", "local s = [=[ s ]] ]=]", "local s = \"\\u{48}\"",
   "local s = `a{1}b`", "local s = `{1}`", "local s = `\\{`",
   "local n = 0x1F", "local n = 1e5", "local n = 1_0", "local n = .5",
+  "a = f[\"k\"]", "f['k'] = 1", "a = {[\"k\"] = 1}",       \* string keys that a rule may turn into field names
   "a.b = 1", "a:b()", "a ..= 'x'", "a //= 2", "a = a == a", "local v: number = 1", "f{ }", "f'x'", "a = ... "
 >>
 Pre  == "local a, f = 1, print "
